@@ -108,16 +108,21 @@ struct mtbl_iter *asrc_source_iter(const struct mtbl_source *s)
 {
 	return (struct mtbl_iter *)a_new(((const struct asrc *)s)->idx, 0, NULL, 0, NULL, 0);
 }
+/* like the reader, a lookup whose start lies after the source's last key yields no iterator at all */
+#define A_NULL_IF_BEYOND(s, k, kl) do { size_t si_ = ((const struct asrc *)(s))->idx; if (a_lower(si_, (k), (kl)) >= S_cnt[si_]) return NULL; } while (0)
 struct mtbl_iter *asrc_source_get(const struct mtbl_source *s, const uint8_t *k, size_t kl)
 {
+	A_NULL_IF_BEYOND(s, k, kl);
 	return (struct mtbl_iter *)a_new(((const struct asrc *)s)->idx, 1, k, kl, NULL, 0);
 }
 struct mtbl_iter *asrc_source_get_prefix(const struct mtbl_source *s, const uint8_t *k, size_t kl)
 {
+	A_NULL_IF_BEYOND(s, k, kl);
 	return (struct mtbl_iter *)a_new(((const struct asrc *)s)->idx, 2, k, kl, NULL, 0);
 }
 struct mtbl_iter *asrc_source_get_range(const struct mtbl_source *s, const uint8_t *k0, size_t l0, const uint8_t *k1, size_t l1)
 {
+	A_NULL_IF_BEYOND(s, k0, l0);
 	return (struct mtbl_iter *)a_new(((const struct asrc *)s)->idx, 3, k0, l0, k1, l1);
 }
 mtbl_res asrc_iter_next(struct mtbl_iter *vit, const uint8_t **k, size_t *kl, const uint8_t **v, size_t *vl)
